@@ -250,17 +250,24 @@ func (server *Server) tlsServe(l net.Listener, tlsConfig *tls.Config, epoch int)
 			return err
 		}
 
-		tlsConn := tls.Server(conn, tlsConfig)
-		verifPoint("tls.handshake.begin", conn)
-		if err := tlsConn.Handshake(); err != nil {
-			verifPoint("tls.handshake.end", err)
-			return err
-		}
-		verifPoint("tls.handshake.end", nil)
-		tlsState := tlsConn.ConnectionState()
-
-		go server.receive(tlsConn, &tlsState, epoch)
+		// The handshake runs in the goroutine of the connection: a failed or stalled
+		// handshake must not stop or block the accept loop.
+		go server.receiveTLS(conn, tlsConfig, epoch)
 	}
+}
+
+// receiveTLS performs the TLS handshake of a client connection and handles it.
+func (server *Server) receiveTLS(conn net.Conn, tlsConfig *tls.Config, epoch int) error {
+	tlsConn := tls.Server(conn, tlsConfig)
+	verifPoint("tls.handshake.begin", conn)
+	if err := tlsConn.Handshake(); err != nil {
+		verifPoint("tls.handshake.end", err)
+		log.Error(err)
+		return errors.Join(err, conn.Close())
+	}
+	verifPoint("tls.handshake.end", nil)
+	tlsState := tlsConn.ConnectionState()
+	return server.receive(tlsConn, &tlsState, epoch)
 }
 
 // receive handles a client connection.
